@@ -143,25 +143,7 @@ theorem visualizeGraph_docMeets (ν : Nums) (a : GraphArgs) (d : Drawing) (hν :
     (hnd : truthy a.width = true ∨ truthy a.height = true) (hs : a.lay.scale ≠ 0)
     (hidx : ∀ e ∈ a.entries, e.1 < a.pos.length ∧ e.2.1 < a.pos.length)
     (h : visualizeGraph ν a = .ok d) : docMeets (render d.svg) (expectedGraph a) = true := by
-  unfold visualizeGraph at h
-  simp only [bind, Except.bind, pure, Except.pure] at h
-  split at h
-  · simp at h
-  split at h
-  · simp at h
-  rename_i nodeColors hcolors
-  split at h
-  · simp at h
-  rename_i pos hpos
-  split at h
-  · simp at h
-  rename_i edges hedges
-  split at h
-  · simp at h
-  rename_i nodes hnodes
-  split at h
-  · simp at h
-  rename_i text htext
+  obtain ⟨nodeColors, pos, edges, nodes, text, hpos, hedges, hnodes, htext, h⟩ := visualizeGraph_ok h
   rw [writeFile_svg h]
   have he2 := graphEdgeParts_inner hν a pos hedges
   have hI : Inner (edges.2 ++ (nodes ++ text)) :=
@@ -259,33 +241,8 @@ theorem visualizeBigraph_docMeets (ν : Nums) (a : BigraphArgs) (d : Drawing) (h
     (hpr : ProbsOk a.probsRow) (hpc : ProbsOk a.probsCol)
     (h : visualizeBigraph ν a = .ok d) :
     docMeets (render d.svg) (expectedBigraph a) = true := by
-  unfold visualizeBigraph at h
-  simp only [bind, Except.bind, pure, Except.pure] at h
-  split at h
-  · simp at h
-  rename_i colorsRow hrow
-  split at h
-  · simp at h
-  rename_i colorsCol hcol
-  split at h
-  · simp at h
-  split at h
-  · simp at h
-  split at h
-  · simp at h
-  rename_i edges hedges
-  split at h
-  · simp at h
-  rename_i nodesRow hnr
-  split at h
-  · simp at h
-  rename_i nodesCol hnc
-  split at h
-  · simp at h
-  rename_i textRow htr
-  split at h
-  · simp at h
-  rename_i textCol htc
+  obtain ⟨colorsRow, colorsCol, edges, nodesRow, nodesCol, textRow, textCol, hedges, hnr, hnc, htr, htc, h⟩ :=
+    visualizeBigraph_ok h
   rw [writeFile_svg h]
   have hI : Inner (edges ++ (nodesRow ++ (nodesCol ++ (textRow ++ textCol)))) :=
     Inner.append (bigraphEdges_inner hν a hedges)
@@ -333,25 +290,7 @@ theorem writeFile_succeeds (fn : Option PyStr) {doc : List Piece} (hlex : pieces
 theorem visualizeGraph_struct (ν : Nums) (a : GraphArgs) (d : Drawing) (hν : SafeNums ν)
     (h : visualizeGraph ν a = .ok d) :
     ∃ doc, piecesLexOk doc = true ∧ writeFile a.filename doc = .ok d := by
-  unfold visualizeGraph at h
-  simp only [bind, Except.bind, pure, Except.pure] at h
-  split at h
-  · simp at h
-  split at h
-  · simp at h
-  rename_i nodeColors hcolors
-  split at h
-  · simp at h
-  rename_i pos hpos
-  split at h
-  · simp at h
-  rename_i edges hedges
-  split at h
-  · simp at h
-  rename_i nodes hnodes
-  split at h
-  · simp at h
-  rename_i text htext
+  obtain ⟨nodeColors, pos, edges, nodes, text, hpos, hedges, hnodes, htext, h⟩ := visualizeGraph_ok h
   have he2 := graphEdgeParts_inner hν a pos hedges
   have hI : Inner (edges.1.flatMap svgMarker ++ (edges.2 ++ (nodes ++ text))) :=
     Inner.append (Inner.flatMap _ _ (fun c => svgMarker_inner c))
@@ -361,33 +300,8 @@ theorem visualizeGraph_struct (ν : Nums) (a : GraphArgs) (d : Drawing) (hν : S
 theorem visualizeBigraph_struct (ν : Nums) (a : BigraphArgs) (d : Drawing) (hν : SafeNums ν)
     (h : visualizeBigraph ν a = .ok d) :
     ∃ doc, piecesLexOk doc = true ∧ writeFile a.filename doc = .ok d := by
-  unfold visualizeBigraph at h
-  simp only [bind, Except.bind, pure, Except.pure] at h
-  split at h
-  · simp at h
-  rename_i colorsRow hrow
-  split at h
-  · simp at h
-  rename_i colorsCol hcol
-  split at h
-  · simp at h
-  split at h
-  · simp at h
-  split at h
-  · simp at h
-  rename_i edges hedges
-  split at h
-  · simp at h
-  rename_i nodesRow hnr
-  split at h
-  · simp at h
-  rename_i nodesCol hnc
-  split at h
-  · simp at h
-  rename_i textRow htr
-  split at h
-  · simp at h
-  rename_i textCol htc
+  obtain ⟨colorsRow, colorsCol, edges, nodesRow, nodesCol, textRow, textCol, hedges, hnr, hnc, htr, htc, h⟩ :=
+    visualizeBigraph_ok h
   have hI : Inner (edges ++ (nodesRow ++ (nodesCol ++ (textRow ++ textCol)))) :=
     Inner.append (bigraphEdges_inner hν a hedges)
       (Inner.append (nodeLoop_inner hν _ _ _ _ hnr) (Inner.append (nodeLoop_inner hν _ _ _ _ hnc)
